@@ -204,7 +204,13 @@ theorem WF_step (pol : Policy) (cfg : Cfg) (reqs : List ReqSpec) (g : G) (st : S
       · rename_i hinv
         have hmem : r ∈ g.rqs := List.mem_of_getElem? hr
         have htb : r.tb = none := hq r hmem (Or.inl (by simpa using hinv))
-        have hf := (loop_frame pol cfg rq 20 (entryLS g rq ch) .nil).1
+        have hf : ∀ b, (invoke pol cfg rq g ch).st.conn b - ind (invoke pol cfg rq g ch).st.tb b =
+            (entryLS g rq ch).conn b - ind (entryLS g rq ch).tb b := by
+          intro b
+          unfold invoke
+          cases rq.pre with
+          | some act => rfl
+          | none => exact (loop_frame pol cfg rq 20 (entryLS g rq ch) .nil).1 b
         constructor
         · intro b
           dsimp only
